@@ -396,6 +396,144 @@ pub fn gen_very_long(g: &mut Xo, steps: usize) -> VmSc {
     sc
 }
 
+// ---------------------------------------------------------------------------
+// small-scope enumeration of exec-structural programs
+
+/// The instructions whose meaning depends on the exec stack (plus three literal pushes as operands / fillers).
+fn small_alphabet() -> Vec<Ins> {
+    let mut v: Vec<Ins> = crate::vm::ALL_EXEC_OPS.iter().map(|o| Ins::Exec(*o)).collect();
+    v.extend([
+        Ins::Pop(Ty::Exec),
+        Ins::Dup(Ty::Exec),
+        Ins::Swap(Ty::Exec),
+        Ins::Flush(Ty::Exec),
+        Ins::IsEmpty(Ty::Exec),
+        Ins::Depth(Ty::Exec),
+        Ins::PushInt(1),
+        Ins::PushBool(true),
+        Ins::PushBool(false),
+    ]);
+    v
+}
+
+const SLOT_A: i64 = -1000;
+const SLOT_B: i64 = -1001;
+
+/// Every forest (program) of exactly `n` nodes whose leaves are one of two slots and whose inner nodes are blocks.
+fn forests_exact(n: usize, memo: &mut Vec<Option<Vec<Vec<Prog>>>>) -> Vec<Vec<Prog>> {
+    if let Some(Some(f)) = memo.get(n) {
+        return f.clone();
+    }
+    let out = if n == 0 {
+        vec![Vec::new()]
+    } else {
+        let mut out = Vec::new();
+        for m in 1..=n {
+            // trees of exactly m nodes
+            let mut trees: Vec<Prog> = Vec::new();
+            if m == 1 {
+                trees.push(Prog::I(Ins::PushInt(SLOT_A)));
+                trees.push(Prog::I(Ins::PushInt(SLOT_B)));
+            }
+            for inner in forests_exact(m - 1, memo) {
+                trees.push(Prog::B(inner));
+            }
+            let rest = forests_exact(n - m, memo);
+            for t in &trees {
+                for r in &rest {
+                    let mut f = Vec::with_capacity(r.len() + 1);
+                    f.push(t.clone());
+                    f.extend(r.iter().cloned());
+                    out.push(f);
+                }
+            }
+        }
+        out
+    };
+    if memo.len() <= n {
+        memo.resize(n + 1, None);
+    }
+    memo[n] = Some(out.clone());
+    out
+}
+
+fn small_shapes() -> &'static Vec<Vec<Prog>> {
+    static SHAPES: std::sync::OnceLock<Vec<Vec<Prog>>> = std::sync::OnceLock::new();
+    SHAPES.get_or_init(|| {
+        let mut memo = Vec::new();
+        (1..=5).flat_map(|n| forests_exact(n, &mut memo)).collect()
+    })
+}
+
+fn small_pairs() -> &'static Vec<(Ins, Ins)> {
+    static PAIRS: std::sync::OnceLock<Vec<(Ins, Ins)>> = std::sync::OnceLock::new();
+    PAIRS.get_or_init(|| {
+        let a = small_alphabet();
+        let structural = a.len() - 3;
+        let mut v = Vec::new();
+        for i in 0..structural {
+            for j in i..a.len() {
+                v.push((a[i].clone(), a[j].clone()));
+            }
+        }
+        v
+    })
+}
+
+fn fill_slots(p: &Prog, a: &Ins, b: &Ins) -> Prog {
+    match p {
+        Prog::I(Ins::PushInt(SLOT_A)) => Prog::I(a.clone()),
+        Prog::I(Ins::PushInt(SLOT_B)) => Prog::I(b.clone()),
+        Prog::I(i) => Prog::I(i.clone()),
+        Prog::B(v) => Prog::B(v.iter().map(|x| fill_slots(x, a, b)).collect()),
+    }
+}
+
+/// Number of cells of the small-scope enumeration (`gen_small_cell`).
+pub fn small_cells() -> usize {
+    small_pairs().len() * small_shapes().len() * 6
+}
+
+/// Cell `idx` of the SMALL-SCOPE ENUMERATION: every program of at most 5 nodes (instructions and blocks, nested in
+/// every way) built from at most two distinct instructions, at least one of which depends on the exec stack
+/// (no-op, dup-block, when, unless, if-else, pop / dup / swap / flush / is-empty / depth on exec), on three bool
+/// stacks ([], [true], [false, true]) and two exec capacities (roomy, tight). Whatever goes wrong with the order of
+/// unfolding, with operands taken from the exec stack, or with anything remembered from one instruction to the
+/// next, goes wrong on a program this small.
+pub fn gen_small_cell(idx: usize) -> VmSc {
+    let idx = idx % small_cells();
+    let shapes = small_shapes();
+    let pairs = small_pairs();
+    let variant = idx % 6;
+    let rest = idx / 6;
+    let shape = &shapes[rest % shapes.len()];
+    let (a, b) = &pairs[rest / shapes.len()];
+    let program: Vec<Prog> = shape.iter().map(|p| fill_slots(p, a, b)).collect();
+    let bool = match variant % 3 {
+        0 => Vec::new(),
+        1 => vec![true],
+        _ => vec![false, true],
+    };
+    let exec_cap = if variant / 3 == 0 { 64 } else { program.len().max(2) + 1 };
+    VmSc {
+        init: VmInit {
+            caps: Caps { exec: exec_cap, int: 8, float: 4, bool: 8 },
+            int: vec![3, 4],
+            float: Vec::new(),
+            bool,
+            program,
+            inputs: Vec::new(),
+            limit: usize::MAX,
+            wrap: 0,
+            giant: 0,
+        },
+        faults: Vec::new(),
+        limits: vec![0, 1, 2, 3, 4, 5, 6, 8, 12, usize::MAX],
+        rebuild_at: None,
+        long: false,
+    }
+}
+
 /// Number of cells of the enumerated operand grid (`gen_operand_cell`).
 pub fn operand_cells() -> usize {
     ALL_INT_OPS.len() * I64_POOL.len() * I64_POOL.len() + ALL_FLOAT_OPS.len() * f64_pool().len() * f64_pool().len()
